@@ -188,3 +188,213 @@ Section QObjSpec.
         reflexivity.
   Qed.
 End QObjSpec.
+
+(* ---------------------------------------------------------------- the normalisation chain *)
+Definition ocopy (k : nat) (r x : rule) : rule :=
+  {| r_id := dec_of_nat k ++ sep_open ++ [] ++ sep_comma ++ r_id x ++ sep_close; r_tm := r_tm r; r_src := r_src r; r_asserted := r_asserted r;
+     r_sk := r_sk r; r_sv := r_sv r; r_stt := r_stt r; r_pk := r_pk r; r_pv := r_pv r;
+     r_ok := r_ok r; r_ov := r_id x; r_ott := r_ott r;
+     r_ld := r_ld r; r_ldk := r_ldk r; r_ldv := r_ldv r; r_gk := r_gk r; r_gv := r_gv r;
+     r_sjoin := r_sjoin r; r_ojoin := r_ojoin r |}.
+
+Lemma expand_qobj f nb tm :
+  (forall kr, In kr nb -> ueqb (r_tm (snd kr)) tm = true ->
+     mkind_eqb (r_sk (snd kr)) KQuoted = false /\
+     (mkind_eqb (r_ok (snd kr)) KQuoted = true -> forall kr', In kr' nb -> ueqb (r_tm (snd kr')) (r_ov (snd kr)) = true -> unstarred (snd kr') = true)) ->
+  expand_tm (S (S f)) nb tm =
+  Ok (flat_map (fun kr => if mkind_eqb (r_ok (snd kr)) KQuoted
+                          then map (fun x => ocopy (fst kr) (snd kr) x)
+                                   (map (fun kr' => with_id (fst kr') (snd kr')) (filter (fun kr' => ueqb (r_tm (snd kr')) (r_ov (snd kr))) nb))
+                          else [with_id (fst kr) (snd kr)])
+               (filter (fun kr => ueqb (r_tm (snd kr)) tm) nb)).
+Proof.
+  intro H. remember (S f) as f1. cbn [expand_tm]. subst f1.
+  rewrite (rmap_all_ext_in _ (fun kr => Ok (if mkind_eqb (r_ok (snd kr)) KQuoted
+             then map (fun x => ocopy (fst kr) (snd kr) x) (map (fun kr' => with_id (fst kr') (snd kr')) (filter (fun kr' => ueqb (r_tm (snd kr')) (r_ov (snd kr))) nb))
+             else [with_id (fst kr) (snd kr)]))).
+  - rewrite rmap_all_pure. cbn [rbind]. f_equal. now rewrite flat_map_concat_map.
+  - intros [k r] Hin. apply filter_In in Hin as [Hin E]. destruct (H (k, r) Hin E) as (H1 & H2). cbn [snd fst] in *.
+    rewrite H1. destruct (mkind_eqb (r_ok r) KQuoted) eqn:Eq.
+    + rewrite (expand_local_unstarred f nb (r_ov r) (H2 eq_refl)). cbn [rbind flat_map]. rewrite app_nil_r, map_map. reflexivity.
+    + reflexivity.
+Qed.
+
+Lemma qobj_base_rules d t rs : qobj_tm t = true -> base_rules_of d (prepare_tm t) = Ok rs ->
+  forall r, In r rs -> mkind_eqb (r_sk r) KQuoted = false /\ r_ok r <> KParent /\ r_src r = t_src t /\ r_asserted r = asserted t /\ r_tm r = t_id t /\
+    (r_ok r = KQuoted -> exists pm o, In pm (t_poms t) /\ In o (p_objs pm) /\ qobj_objmap o = true /\ r_ov r = m_value (o_tm o)).
+Proof.
+  intros Hpl Hb r Hr. unfold qobj_tm in Hpl. rewrite !andb_true_iff in Hpl. destruct Hpl as [[[Hsub Hsg] Hpoms] _].
+  assert (Hsk : mkind_eqb (m_kind (t_subj t)) KQuoted = false).
+  { unfold plain_map in Hsub. apply andb_true_iff in Hsub as [H _]. now destruct (m_kind (t_subj t)). }
+  assert (Ea : negb (t_nonasserted (prepare_tm t)) && negb (match t_poms (prepare_tm t) with [] => true | _ => false end) = asserted t).
+  { rewrite prepared_nopoms. unfold asserted. reflexivity. }
+  destruct (t_poms (prepare_tm t)) as [|p0 ps0] eqn:Ep.
+  - rewrite base_rules_unfold in Hb. cbv zeta in Hb. rewrite Ep in Hb. destruct (negb _) in Hb; [discriminate|]. injection Hb as <-.
+    destruct Hr as [<-|[]]. cbn [mk_rule r_sk r_ok r_src r_asserted r_tm]. cbn [prepare_tm complete_default_graph sgraphs_to_pom class_to_pom t_subj t_src t_id].
+    rewrite Hsk. repeat split; auto; discriminate.
+  - assert (Hne : t_poms (prepare_tm t) <> []) by (rewrite Ep; discriminate).
+    destruct (base_rules_in d (prepare_tm t) rs Hb Hne) as [_ Hin]. cbv zeta in Hin. apply Hin in Hr as (pm' & Hpm' & Hr).
+    unfold prepare_tm in Hpm'. rewrite prepare_poms in Hpm'. apply in_map_iff in Hpm' as (pm & <- & Hpm).
+    assert (Ppm : qplain_pom pm = true).
+    { apply in_app_iff in Hpm as [H|H]; [rewrite forallb_forall in Hpoms; auto|]. apply in_map_iff in H as (c & <- & _). apply class_pom_qplain. }
+    unfold qplain_pom in Ppm. rewrite !andb_true_iff in Ppm. destruct Ppm as [[Pp Po] Pg].
+    unfold pom_rules in Hr. apply gen_in in Hr as (p & o & ott & ld & ldk & ldv & gm & Hp & Hrow & Hgm & ->). cbn [p_preds p_objs p_graphs] in *.
+    unfold effective_objs in Hrow. cbn [p_objs] in Hrow. fold (effective_objs pm) in Hrow. rewrite (eff_qplain pm Po) in Hrow. apply in_flat_map in Hrow as (o' & Ho & Hrow).
+    unfold obj_rows in Hrow. apply in_map_iff in Hrow as (ldr & E & _). injection E as <- _ _.
+    cbn [mk_rule r_sk r_ok r_ov r_src r_asserted r_tm]. cbn [prepare_tm complete_default_graph sgraphs_to_pom class_to_pom t_subj t_src t_id]. rewrite Hsk.
+    destruct (qobj_kind pm o' Po Ho) as [Plo|Jo].
+    + unfold plain_objmap, plain_map in Plo. rewrite !andb_true_iff in Plo. destruct Plo as [[Hk _] _].
+      repeat split; auto.
+      * intro E. rewrite E in Hk. discriminate.
+      * rewrite <- Ea. rewrite Ep. reflexivity.
+      * intro E. rewrite E in Hk. discriminate.
+    + destruct (qobj_fields o' Jo) as (Ek & _). rewrite Ek. cbn [undelimit].
+      repeat split; auto.
+      * discriminate.
+      * rewrite <- Ea. rewrite Ep. reflexivity.
+      * intros _. apply in_app_iff in Hpm as [Hpm|Hpm].
+        -- exists pm, o'. repeat split; auto.
+        -- apply in_map_iff in Hpm as (c & <- & _). cbn [class_pom p_objs] in Ho. destruct Ho as [<-|[]]. discriminate.
+Qed.
+
+Lemma doc_qobj_line_fields scfg rl rl' b b' sr :
+  r_sk rl' = r_sk rl -> r_sv rl' = r_sv rl -> r_stt rl' = r_stt rl -> r_pk rl' = r_pk rl -> r_pv rl' = r_pv rl -> r_gk rl' = r_gk rl -> r_gv rl' = r_gv rl ->
+  (forall sr0, spec_parts scfg b' sr0 = spec_parts scfg b sr0) -> (forall sr0, rule_graph_opt scfg b' sr0 = rule_graph_opt scfg b sr0) ->
+  doc_qobj_line scfg rl' b' sr = doc_qobj_line scfg rl b sr.
+Proof.
+  intros A B C D E F G K L. unfold doc_qobj_line. rewrite K, L. unfold rule_graph_opt at 2 4. now rewrite A, B, C, D, E, F, G.
+Qed.
+
+Section DocQObjEquiv.
+  Variables (scfg : scfg) (fe : fenv) (tables : ustr -> stable).
+
+  Theorem doc_spec_is_rule_spec_qobj d0 rules :
+    qobj_doc d0 = true -> normalise d0 = Ok rules -> nodupb (map r_id rules) = true ->
+    forall x, In x (spec_lines scfg fe d0 tables) <->
+      (exists rl sr, In rl rules /\ r_asserted rl = true /\ r_ok rl <> KQuoted /\ In sr (tables (r_src rl)) /\ doc_rule_line scfg rl sr = Some x) \/
+      (exists rl b sr, In rl rules /\ r_asserted rl = true /\ r_ok rl = KQuoted /\ find_rule rules (r_ov rl) = Some b /\
+                       In sr (tables (r_src rl)) /\ doc_qobj_line scfg rl b sr = Some x).
+  Proof.
+    intros Hqd Hn Hnr. unfold qobj_doc in Hqd. apply andb_true_iff in Hqd as [Hok Hnd].
+    unfold normalise in Hn. set (d := prepare d0) in *.
+    destruct (forallb _ d) in Hn; [discriminate|].
+    destruct (rmap_all (base_rules_of d) d) as [base|e] eqn:Eb; cbn [rbind] in Hn; [|discriminate].
+    apply rmap_all_ok in Eb.
+    assert (Ed : d = map prepare_tm d0) by reflexivity.
+    assert (Tm : forall t, In t d0 -> exists rs, In rs base /\ base_rules_of d (prepare_tm t) = Ok rs).
+    { intros t Ht. assert (X : In (prepare_tm t) d) by (rewrite Ed; now apply in_map). destruct (Forall2_in_l _ _ _ _ Eb X) as (rs & H1 & H2). eauto. }
+    assert (Rs : forall rs, In rs base -> exists t, In t d0 /\ base_rules_of d (prepare_tm t) = Ok rs).
+    { intros rs Hrs. destruct (Forall2_in_r _ _ _ _ Eb Hrs) as (t' & H1 & H2). rewrite Ed in H1. apply in_map_iff in H1 as (t & <- & Ht). eauto. }
+    assert (Qt : forall t, In t d0 -> qobj_tm t = true).
+    { intros t Ht. rewrite forallb_forall in Hok. specialize (Hok t Ht). now apply andb_true_iff in Hok as [X _]. }
+    assert (Target : forall t pm o, In t d0 -> In pm (t_poms t) -> In o (p_objs pm) -> qobj_objmap o = true ->
+              exists q rsq, find_tm d0 (m_value (o_tm o)) = Some q /\ In q d0 /\ plain_tm q = true /\ base_rules_of d (prepare_tm q) = Ok rsq /\ In rsq base).
+    { intros t pm o Ht Hpm Ho Jo. rewrite forallb_forall in Hok. specialize (Hok t Ht). apply andb_true_iff in Hok as [_ X].
+      rewrite forallb_forall in X. specialize (X pm Hpm). rewrite forallb_forall in X. specialize (X o Ho). unfold qobj_target_ok in X. rewrite Jo in X.
+      destruct (find (fun q => ueqb (t_id q) (m_value (o_tm o))) d0) as [q|] eqn:Ef; [|discriminate].
+      pose proof (find_some _ _ Ef) as [Hq _]. destruct (Tm q Hq) as (rsq & Hrsq & Hbq). exists q, rsq. auto. }
+    set (nb := number_from 0 (concat base)) in *.
+    assert (NbBase : forall k r, In (k, r) nb -> exists t rs, In t d0 /\ base_rules_of d (prepare_tm t) = Ok rs /\ In r rs).
+    { intros k r H. apply number_from_in in H. apply in_concat in H as (rs & Hrs & Hr). destruct (Rs rs Hrs) as (t & Ht & Hb). eauto. }
+    assert (TmOf : forall t rs r, In t d0 -> base_rules_of d (prepare_tm t) = Ok rs -> In r rs -> r_tm r = t_id t).
+    { intros t rs r Ht Hb Hr. now destruct (qobj_base_rules d t rs (Qt t Ht) Hb r Hr) as (_ & _ & _ & _ & X & _). }
+    assert (Uniq : forall t t', In t d0 -> In t' d0 -> t_id t = t_id t' -> t = t').
+    { intros t t' Ht Ht' E. pose proof (find_tm_nodup d0 t Hnd Ht) as A. pose proof (find_tm_nodup d0 t' Hnd Ht') as B. rewrite E, B in A. now injection A. }
+    assert (PlainRules : forall q rsq b, In q d0 -> plain_tm q = true -> base_rules_of d (prepare_tm q) = Ok rsq -> In b rsq -> unquoted b = true)
+      by (intros q rsq b Hq Hp Hbq Hbin; now destruct (plain_base_rules d q rsq Hp Hbq b Hbin)).
+    set (PEXP := fun tid : ustr => map (fun kr : nat * rule => with_id (fst kr) (snd kr)) (filter (fun kr => ueqb (r_tm (snd kr)) tid) nb)).
+    set (EXP := fun tid : ustr => flat_map (fun kr : nat * rule => if mkind_eqb (r_ok (snd kr)) KQuoted then map (fun x => ocopy (fst kr) (snd kr) x) (PEXP (r_ov (snd kr))) else [with_id (fst kr) (snd kr)])
+                                           (filter (fun kr => ueqb (r_tm (snd kr)) tid) nb)).
+    (* rules of the triples map named by a quoting object map are those of a plain triples map *)
+    assert (TargetRules : forall k r, In (k, r) nb -> r_ok r = KQuoted -> forall k' b, In (k', b) nb -> r_tm b = r_ov r -> unquoted b = true).
+    { intros k r Hkr Hk k' b Hkb E. destruct (NbBase k r Hkr) as (t & rs & Ht & Hb & Hr).
+      destruct (qobj_base_rules d t rs (Qt t Ht) Hb r Hr) as (_ & _ & _ & _ & _ & Hq). destruct (Hq Hk) as (pm & o & Hpm & Ho & Jo & Eov).
+      destruct (Target t pm o Ht Hpm Ho Jo) as (q & rsq & Hf & Hqin & Hqp & Hbq & _).
+      destruct (NbBase k' b Hkb) as (t' & rs' & Ht' & Hb' & Hr').
+      assert (t' = q).
+      { apply Uniq; auto. rewrite <- (TmOf t' rs' b Ht' Hb' Hr'), E, Eov. unfold find_tm in Hf. apply find_some in Hf as [_ X]. apply ueqb_eq in X. now rewrite X. }
+      subst t'. exact (PlainRules q rs' b Hqin Hqp Hb' Hr'). }
+    assert (Exp : forall tid, In tid (tm_ids d) -> expand_tm (S (length d)) nb tid = Ok (EXP tid)).
+    { intros tid Hin. unfold tm_ids in Hin. rewrite Ed, map_map in Hin. apply in_map_iff in Hin as (t & Eid & Ht). change (t_id (prepare_tm t)) with (t_id t) in Eid.
+      assert (Hlen : exists f, length d = S f).
+      { rewrite Ed, map_length. destruct d0 as [|a l]; [contradiction|]. simpl. eauto. }
+      destruct Hlen as (f & ->). apply expand_qobj. intros [k r] Hkr E. cbn [snd] in *.
+      destruct (NbBase k r Hkr) as (t' & rs & Ht' & Hb & Hr). destruct (qobj_base_rules d t' rs (Qt t' Ht') Hb r Hr) as (A & _).
+      split; [exact A|]. intros Hq [k' b] Hkb E'. cbn [snd] in *. apply ueqb_eq in E'. apply unquoted_unstarred.
+      apply (TargetRules k r Hkr (mkind_eqb_eq _ _ Hq) k' b Hkb E'). }
+    rewrite (rmap_all_ext_in _ (fun tid => Ok (EXP tid))) in Hn by (intros tid Htid; apply Exp; now apply dedup_first_in).
+    rewrite rmap_all_pure in Hn. cbn [rbind] in Hn.
+    set (mid := concat (map _ (dedup_first (tm_ids d)))) in Hn.
+    assert (InExp : forall t rs r k, In t d0 -> base_rules_of d (prepare_tm t) = Ok rs -> In r rs -> In (k, r) nb ->
+              forall rl, In rl (if mkind_eqb (r_ok r) KQuoted then map (fun x => ocopy k r x) (PEXP (r_ov r)) else [with_id k r]) -> In rl mid).
+    { intros t rs r k Ht Hb Hr Hk rl Hrl. unfold mid. apply in_concat. exists (EXP (t_id t)). split.
+      - apply in_map_iff. exists (t_id t). split; auto. apply dedup_first_in. unfold tm_ids. rewrite Ed, map_map. apply in_map_iff. exists t. auto.
+      - unfold EXP. apply in_flat_map. exists (k, r). split; [|exact Hrl]. apply filter_In. split; auto. cbn [snd]. rewrite (TmOf t rs r Ht Hb Hr). apply ueqb_refl. }
+    assert (InP : forall t rs r, In t d0 -> base_rules_of d (prepare_tm t) = Ok rs -> In rs base -> In r rs -> r_ok r <> KQuoted -> exists k, In (with_id k r) mid /\ In (k, r) nb).
+    { intros t rs r Ht Hb Hrs Hr Hnq. assert (Hc : In r (concat base)) by (apply in_concat; eauto).
+      destruct (number_from_all (concat base) 0 r Hc) as (k & Hk). exists k. split; auto. apply (InExp t rs r k Ht Hb Hr Hk).
+      destruct (mkind_eqb (r_ok r) KQuoted) eqn:E; [exfalso; apply Hnq; now apply mkind_eqb_eq|now left]. }
+    assert (UnqNotQ : forall b, unquoted b = true -> r_ok b <> KQuoted).
+    { intros b U E. unfold unquoted in U. rewrite !andb_true_iff, !negb_true_iff in U. destruct U as [[_ U] _]. rewrite E in U. discriminate. }
+    assert (MidCases : forall rl, In rl mid -> exists k r t rs, In t d0 /\ base_rules_of d (prepare_tm t) = Ok rs /\ In r rs /\
+              ((r_ok r <> KQuoted /\ rl = with_id k r) \/
+               (r_ok r = KQuoted /\ exists k' b, In (k', b) nb /\ r_tm b = r_ov r /\ unquoted b = true /\ rl = ocopy k r (with_id k' b) /\ In (with_id k' b) mid))).
+    { intros rl H. unfold mid in H. apply in_concat in H as (l & Hl & Hrl). apply in_map_iff in Hl as (tid & <- & Htid).
+      unfold EXP in Hrl. apply in_flat_map in Hrl as ([k r] & Hkr & Hrl). apply filter_In in Hkr as [Hkr E]. cbn [fst snd] in *.
+      destruct (NbBase k r Hkr) as (t & rs & Ht & Hb & Hr). exists k, r, t, rs. split; auto. split; auto. split; auto.
+      destruct (mkind_eqb (r_ok r) KQuoted) eqn:Eq.
+      - right. apply mkind_eqb_eq in Eq. split; auto. apply in_map_iff in Hrl as (x & <- & Hx). unfold PEXP in Hx. apply in_map_iff in Hx as ([k' b] & <- & Hkb).
+        apply filter_In in Hkb as [Hkb E']. cbn [fst snd] in *. apply ueqb_eq in E'. pose proof (TargetRules k r Hkr Eq k' b Hkb E') as U.
+        exists k', b. repeat split; auto.
+        destruct (NbBase k' b Hkb) as (t' & rs' & Ht' & Hb' & Hr'). apply (InExp t' rs' b k' Ht' Hb' Hr' Hkb).
+        destruct (mkind_eqb (r_ok b) KQuoted) eqn:Eb'; [exfalso; apply (UnqNotQ b U); now apply mkind_eqb_eq|now left].
+      - left. destruct Hrl as [<-|[]]. split; auto. now apply mkind_eqb_neq. }
+    assert (NoParent : forall rl, In rl mid -> r_ok rl <> KParent).
+    { intros rl H. destruct (MidCases rl H) as (k & r & t & rs & Ht & Hb & Hr & [[_ ->]|[_ (k' & b & _ & _ & _ & -> & _)]]);
+        destruct (qobj_base_rules d t rs (Qt t Ht) Hb r Hr) as (_ & X & _); exact X. }
+    assert (Res : rmap_all (resolve_parent mid) mid = Ok mid).
+    { rewrite (rmap_all_ext_in _ (fun r => Ok ((fun x => x) r))); [rewrite rmap_all_pure; now rewrite map_id|].
+      intros rl Hrl. pose proof (NoParent rl Hrl) as X. unfold resolve_parent. destruct (mkind_eqb (r_ok rl) KParent) eqn:E; [|reflexivity].
+      exfalso. apply X. now apply mkind_eqb_eq. }
+    rewrite Res in Hn. cbn [rbind] in Hn. destruct (existsb rule_has_blank mid) in Hn; [discriminate|]. injection Hn as <-.
+    assert (Hpar : forall t, In t d0 -> forall pm o, In pm (t_poms t) -> In o (p_objs pm) -> qobj_objmap o = true ->
+              exists q rsq, find_tm d0 (m_value (o_tm o)) = Some q /\ plain_tm q = true /\ base_rules_of d (prepare_tm q) = Ok rsq).
+    { intros t Ht pm o Hpm Ho Jo. destruct (Target t pm o Ht Hpm Ho Jo) as (q & rsq & A & _ & B & C & _). eauto. }
+    intro x. unfold spec_lines. rewrite mem_dedup, in_flat_map. split.
+    - intros (t & Ht & Hx). destruct (asserted t) eqn:Ea; [|contradiction]. apply in_flat_map in Hx as (sr & Hsr & Hx).
+      destruct (Tm t Ht) as (rs & Hrs & Hb).
+      destruct (proj1 (tm_lines_equiv_qobj scfg fe d0 tables d t sr rs (Qt t Ht) (Hpar t Ht) Hb x) Hx) as (rl0 & Hrl0 & Hcase).
+      destruct (qobj_base_rules d t rs (Qt t Ht) Hb rl0 Hrl0) as (_ & _ & Hsrc & Hass & _).
+      destruct Hcase as [[Hnq Hline]|[Hk (q & rsq & b & Hf & Hqp & Hbq & Hbin & Hline)]].
+      + left. destruct (InP t rs rl0 Ht Hb Hrs Hrl0 Hnq) as (k & Hmid & _).
+        exists (with_id k rl0), sr. split; [exact Hmid|]. split; [cbn [with_id r_asserted]; now rewrite Hass|]. split; [exact Hnq|].
+        split; [cbn [with_id r_src]; now rewrite Hsrc|exact Hline].
+      + right. assert (Hc : In rl0 (concat base)) by (apply in_concat; eauto). destruct (number_from_all (concat base) 0 rl0 Hc) as (k & Hknb).
+        assert (Hqin : In q d0) by (unfold find_tm in Hf; now apply (find_some _ _ Hf)).
+        destruct (Tm q Hqin) as (rsq' & Hrsq' & Hbq'). rewrite Hbq in Hbq'. injection Hbq' as <-.
+        pose proof (PlainRules q rsq b Hqin Hqp Hbq Hbin) as U.
+        destruct (InP q rsq b Hqin Hbq Hrsq' Hbin (UnqNotQ b U)) as (k' & Hmid' & Hnb').
+        assert (Hmid : In (ocopy k rl0 (with_id k' b)) mid).
+        { apply (InExp t rs rl0 k Ht Hb Hrl0 Hknb). rewrite Hk. cbn [mkind_eqb]. apply in_map_iff. exists (with_id k' b). split; auto.
+          unfold PEXP. apply in_map_iff. exists (k', b). split; auto. apply filter_In. split; auto. cbn [snd]. rewrite (TmOf q rsq b Hqin Hbq Hbin).
+          unfold find_tm in Hf. apply find_some in Hf as [_ X]. exact X. }
+        exists (ocopy k rl0 (with_id k' b)), (with_id k' b), sr. split; [exact Hmid|]. split; [cbn [ocopy r_asserted]; now rewrite Hass|].
+        split; [exact Hk|]. split; [cbn [ocopy r_ov]; now apply find_rule_nodup|]. split; [cbn [ocopy r_src]; now rewrite Hsrc|exact Hline].
+    - intros [(rl & sr & Hrl & Has & Hnq & Hsr & Hline)|(rl & b & sr & Hrl & Has & Hk & Hfb & Hsr & Hline)].
+      + destruct (MidCases rl Hrl) as (k & r & t & rs & Ht & Hb & Hr & [[Hnq0 ->]|[Hk0 (k' & b & _ & _ & _ & -> & _)]]); [|exfalso; apply Hnq; exact Hk0].
+        destruct (qobj_base_rules d t rs (Qt t Ht) Hb r Hr) as (_ & _ & Hsrc & Hass & _). cbn [with_id r_asserted r_src] in Has, Hsr. rewrite doc_rule_line_with_id in Hline.
+        exists t. split; auto. rewrite <- Hass, Has. apply in_flat_map. exists sr. split; [now rewrite <- Hsrc|].
+        apply (tm_lines_equiv_qobj scfg fe d0 tables d t sr rs (Qt t Ht) (Hpar t Ht) Hb). exists r. split; auto.
+      + destruct (MidCases rl Hrl) as (k & r & t & rs & Ht & Hb & Hr & [[Hnq0 ->]|[Hk0 (k' & b0 & Hkb & Etm & U & -> & Hmid')]]); [exfalso; apply Hnq0; exact Hk|].
+        cbn [ocopy r_ov r_asserted r_src] in Hfb, Has, Hsr. rewrite (find_rule_nodup mid (with_id k' b0) Hnr Hmid') in Hfb. injection Hfb as <-.
+        destruct (qobj_base_rules d t rs (Qt t Ht) Hb r Hr) as (_ & _ & Hsrc & Hass & _ & Hq). destruct (Hq Hk0) as (pm & o & Hpm & Ho & Jo & Eov).
+        destruct (Target t pm o Ht Hpm Ho Jo) as (q & rsq & Hf & Hqin & Hqp & Hbq & _).
+        destruct (NbBase k' b0 Hkb) as (t' & rs' & Ht' & Hb' & Hr').
+        assert (t' = q).
+        { apply Uniq; auto. rewrite <- (TmOf t' rs' b0 Ht' Hb' Hr'), Etm, Eov. unfold find_tm in Hf. apply find_some in Hf as [_ X]. apply ueqb_eq in X. now rewrite X. }
+        subst t'. rewrite Hbq in Hb'. injection Hb' as <-.
+        exists t. split; auto. rewrite <- Hass, Has. apply in_flat_map. exists sr. split; [now rewrite <- Hsrc|].
+        apply (tm_lines_equiv_qobj scfg fe d0 tables d t sr rs (Qt t Ht) (Hpar t Ht) Hb). exists r. split; auto. right. split; [exact Hk0|].
+        exists q, rsq, b0. rewrite Eov. repeat split; auto.
+  Qed.
+End DocQObjEquiv.
